@@ -130,6 +130,12 @@ def eval_unit(unit, tier):
         if resource:
             out["status"] = "undecided"
             out["reasons"].append(f"resource limit in {f.key}")
+    for name, props, desc, lf in R.lemma_obligations(unit):
+        errs = base["lemma_fail"].get(name, [])
+        out["obligations"].append({"id": f"{unit.name}/lemma:{name}", "unit": unit.name, "fn": f"lemmas/{lf}::{name}", "clause": name,
+                                   "kind": "lemma", "text": desc or f"proof fn {name} (hand-written lemma over the contracts)", "props": list(props),
+                                   "verdict": "failed" if errs else "discharged", "backend": "verus/z3", "characterisation": False,
+                                   "detail": [e["rendered"] for e in errs]})
     # ---- vacuity canaries and known-finding variants (run concurrently)
     jobs = []
     if out["status"] == "ok":
@@ -225,6 +231,7 @@ def main(argv):
                 ids.append(f"{u.name}/{f.key}#safety")
                 if f.injects or any(lp.body_entry or lp.body_exit for lp in f.loops):
                     ids.append(f"{u.name}/{f.key}#proof")
+            ids += [f"{u.name}/lemma:{nm}" for nm, _, _, _ in R.lemma_obligations(u)]
             cen[u.name] = sorted(ids)
         json.dump(cen, open(os.path.join(VERIF, "units", "census.json"), "w"), indent=1, sort_keys=True)
         print("census written:", sum(len(v) for v in cen.values()), "obligations")
